@@ -33,6 +33,8 @@ use crate::version::Version;
 use mio::net::{TcpListener, UdpSocket};
 use mio::{Events, Poll, PollOpt, Ready, Token};
 use mio_extras::timer::Timer;
+use net2::unix::UnixTcpBuilderExt;
+use net2::TcpBuilder;
 use rand::{thread_rng, RngCore};
 
 // mio event registrations
@@ -102,7 +104,17 @@ impl Server {
                 .parse()
                 .unwrap();
 
-            let tcp_listener = TcpListener::bind(&hc_sock_addr)
+            // Every worker thread creates its own Server, and so its own listener on the same
+            // health check port. SO_REUSEADDR and SO_REUSEPORT (same as the UDP sockets) let all
+            // of them bind; the kernel distributes incoming connections among the listeners.
+            let tcp_listener = TcpBuilder::new_v4()
+                .and_then(|builder| {
+                    builder.reuse_address(true)?;
+                    builder.reuse_port(true)?;
+                    builder.bind(hc_sock_addr)?;
+                    builder.listen(1024)
+                })
+                .and_then(TcpListener::from_std)
                 .expect("failed to bind TCP listener for health check");
 
             poll.register(
